@@ -201,7 +201,20 @@ func runC18(rc *RunCtx) *simkit.Violation {
 				f := files[t.Choose(len(files))]
 				off := t.Pick(0, 0, len(f.data), len(f.data)+3, t.Range(0, len(f.data)+1))
 				data := t.Bytes(t.Pick(1, 10, 100, 5000))
-				err := fs.WriteFile(bg, &fuseops.WriteFileOp{Inode: f.ino, Offset: int64(off), Data: data})
+				// open / write / (fsync) / flush / release, as the kernel drives a write(2) + close(2)
+				err := fs.OpenFile(bg, &fuseops.OpenFileOp{Inode: f.ino})
+				if err == nil {
+					err = fs.WriteFile(bg, &fuseops.WriteFileOp{Inode: f.ino, Offset: int64(off), Data: data})
+				}
+				if err == nil && t.Bool(1, 3) {
+					err = fs.SyncFile(bg, &fuseops.SyncFileOp{Inode: f.ino})
+				}
+				if err == nil {
+					err = fs.FlushFile(bg, &fuseops.FlushFileOp{Inode: f.ino})
+				}
+				if err == nil {
+					err = fs.ReleaseFileHandle(bg, &fuseops.ReleaseFileHandleOp{})
+				}
 				note("write %s off %d len %d -> %s", f.path(), off, len(data), errnoName(err))
 				if err != nil {
 					out = Viol(prop, "errno", "WriteFile", f.path(), "writing %d bytes at %d to an existing file returns %s (history: %s)", len(data), off, errnoName(err), tr())
@@ -239,7 +252,16 @@ func runC18(rc *RunCtx) *simkit.Violation {
 				off := t.Pick(0, 0, len(f.data)/2, len(f.data)-1)
 				ln := t.Pick(1, 64, 4096, 8192)
 				op := &fuseops.ReadFileOp{Inode: f.ino, Offset: int64(off), Dst: make([]byte, ln)}
-				err := fs.ReadFile(bg, op)
+				err := fs.OpenFile(bg, &fuseops.OpenFileOp{Inode: f.ino})
+				if err == nil {
+					err = fs.ReadFile(bg, op)
+				}
+				if err == nil {
+					err = fs.FlushFile(bg, &fuseops.FlushFileOp{Inode: f.ino})
+				}
+				if err == nil {
+					err = fs.ReleaseFileHandle(bg, &fuseops.ReleaseFileHandleOp{})
+				}
 				var want []byte
 				if off < len(f.data) {
 					want = f.data[off:min(len(f.data), off+ln)]
@@ -401,6 +423,11 @@ func runC18(rc *RunCtx) *simkit.Violation {
 				}
 				// one big buffer, or a small one resumed at the offset of the last entry returned (as the kernel does
 				// for directories that do not fit one buffer)
+				if err := fs.OpenDir(bg, &fuseops.OpenDirOp{Inode: p.ino}); err != nil {
+					out = Viol(prop, "errno", "OpenDir", p.path(), "opendir of a live directory returns %s (history: %s)", errnoName(err), tr())
+					return nil, nil
+				}
+				defer func() { _ = fs.ReleaseDirHandle(bg, &fuseops.ReleaseDirHandleOp{}) }()
 				bufSize := t.Pick(64*1024, 64*1024, 40, 72, 110)
 				var got, want []string
 				off := fuseops.DirOffset(0)
